@@ -23,6 +23,7 @@ mod c13;
 mod c14;
 mod c15;
 mod c16;
+mod c16_real;
 mod c17;
 mod c17_real;
 mod c16_world;
